@@ -147,15 +147,11 @@ func (s *Sim) waitQuiescent() (Snapshot, bool) {
 	t0 := time.Now()
 	spins := 0
 	for {
-		s.mu.Lock()
-		before := len(s.parked)
-		s.mu.Unlock()
+		before := s.tableLen()
 		snap := s.takeSnapshot(false)
 		s.Stats.Snapshots++
 		if snap.Quiesced {
-			s.mu.Lock()
-			after := len(s.parked)
-			s.mu.Unlock()
+			after := s.tableLen()
 			if before == after && snap.Parked == after {
 				if after == 0 {
 					// terminal state: take the detailed picture
